@@ -263,4 +263,9 @@ func WatchGlobals(pkgPrefix string)    {}
 func WatchReport()                    {}
 func WatchEndTag(tag string)          {}
 func WatchHits() int                  { return 0 }
+func WatchHitsTag(tag string) int     { return 0 }
+func WatchChangedTag(tag string) int  { return 0 }
+
+// NativeCheck runs f in the compiled harness (replay); under the engine it is true without running f.
+func NativeCheck(f func() bool) bool { return f() }
 func WatchEnd()                       {}
